@@ -88,7 +88,9 @@ unsigned int get_rex_prefix(struct instr *all_instr, struct operand *m,
   // of its address registers
   else if (all_instr->mem_disp && rm == m->reg && !(rm & reg_none))
     rm = (rm & MODE_CLEAR) | reg64;
-  else if (!(rm & reg_none) && !(rm & MODE_MASK) && rm >= spl)
+  // spl, bpl, sil and dil can only be addressed with a REX prefix, whether or
+  // not a (redundant) byte keyword is written in front of the register
+  if (!(m->reg & reg_none) && !(m->reg & MODE_MASK) && m->reg >= spl)
     rex_prefix |= rex_;
   if (!(r->reg & reg_none) && !(r->reg & MODE_MASK) && r->reg >= spl)
     rex_prefix |= rex_;
